@@ -447,6 +447,7 @@ def execute(prop, scen):
 
                 data = pd.Series(data)
             before = dict(dist.parameters)
+            data_before = np.array(data, dtype=float, copy=True)
             exc = None
             seams.pin_global(core.h64(scen["seed"], si))
             w_arg = op["weights"]
@@ -460,6 +461,10 @@ def execute(prop, scen):
             except Exception as e:  # noqa: BLE001
                 exc = e
             run.event("fit", [op["method"], op["source"], op["n"]], [dict(dist.parameters), type(exc).__name__ if exc else None], ["F2"] if op["source"] == "rejected" else [])
+            if not np.array_equal(np.asarray(data, dtype=float), data_before, equal_nan=True):
+                # the observations are the caller's: the next fit (of this or another object) is given the same array
+                run.violate("I7-fit-changes-the-callers-data", f"{fam}/{'+'.join(sorted(scen['fixed']))}/{op['method'].lower()}", {"container": op.get("container", "ndarray"), "max_abs_change": float(np.nanmax(np.abs(np.asarray(data, dtype=float) - data_before))), "step": si})
+                return run
             where = "after-failed-fit" if exc is not None else ("after-refit" if failed_before else "after-fit")
             if op["source"] == "rejected":
                 if exc is not None:
